@@ -57,6 +57,23 @@ Theorem C18_flag_list : forall s,
 Proof. exact Feat.parse_features_spec. Qed.
 Print Assumptions C18_flag_list.
 
+(** The flag may stand before the sub-command, after it, or in both places (since F32 the two are combined with
+    `Features::union`): the extension is on exactly when both values are acceptable and at least one names `stack`. *)
+Theorem C18_flag_positions : forall pre post,
+  (Feat.command_line pre post = Some true <->
+     exists a b, Feat.one_position pre = Some a /\ Feat.one_position post = Some b /\ (a = true \/ b = true)) /\
+  (Feat.command_line pre post = Some false <-> Feat.one_position pre = Some false /\ Feat.one_position post = Some false) /\
+  (Feat.command_line pre post = None <-> Feat.one_position pre = None \/ Feat.one_position post = None).
+Proof. exact Feat.command_line_spec. Qed.
+Print Assumptions C18_flag_positions.
+
+Example C18_flag_positions_nonvacuous :
+  Feat.command_line (Some (str "stack")) (Some (str "stack")) = Some true /\
+  Feat.command_line (Some (str "stack")) None = Some true /\ Feat.command_line None (Some (str ",stack")) = Some true /\
+  Feat.command_line (Some (str "")) (Some (str "")) = Some false /\ Feat.command_line None None = Some false /\
+  Feat.command_line (Some (str "heap")) (Some (str "stack")) = None.
+Proof. exact Feat.ex_command_line. Qed.
+
 Example C18_flag_list_nonvacuous :
   Feat.parse_features (str "stack") = Some true /\ Feat.parse_features (str ",stack,,") = Some true /\
   Feat.parse_features (str "") = Some false /\ Feat.parse_features (str ",,") = Some false /\
